@@ -52,6 +52,33 @@ class Sel(object):
         self.mask = mask
 
 
+def mentions_new_symbol(e, before, after):
+    """does e mention a symbol that the context handed out between the two snapshots of its name counters?"""
+    stack = [e]
+    seen = set()
+    while stack:
+        x = stack.pop()
+        i = x.get_id()
+        if i in seen:
+            continue
+        seen.add(i)
+        if z3.is_quantifier(x):
+            stack.append(x.body())
+            continue
+        if z3.is_app(x):
+            if x.decl().kind() == z3.Z3_OP_UNINTERPRETED:
+                nm = x.decl().name()
+                base, _, num = nm.rpartition('!')
+                if not base or not num.isdigit():
+                    base, kx = nm, 0
+                else:
+                    kx = int(num)
+                if base in after and before.get(base, 0) <= kx < after[base]:
+                    return True
+            stack.extend(x.children())
+    return False
+
+
 class GridState(object):
     """content of an object array whose cells are Python lists (density2d's H_events): after the scatter loop
     'for e, a, b in zip(ev, xb, yb): G[a, b].append(e)' cell (a, b) holds exactly the e_k with (xb_k, yb_k) == (a, b)"""
@@ -205,7 +232,43 @@ class NumpyModel(object):
         I = self.I
         k = I.ctx.fresh_int('arr_k')
         n = I.z(s.n, 'int')
+        names_before = dict(I.ctx.names)
         res = I.sub_explore(lambda: I.seq_get_sym(s, k), [0 <= k, k < n])
+        # an element whose computation introduces fresh symbols (filter counts, statistics, ...) is not a term in k: the
+        # symbols of the explored element would be shared by all elements.  Such arrays get uninterpreted contents; the
+        # defining equation can be instantiated at a given index with link_element().
+        gen = False
+        for r in res:
+            exprs = list(r.pc_suffix or [])
+            if r.outcome != 'raise' and I.is_number(r.value) and not isinstance(r.value, (int, float, bool)):
+                try:
+                    exprs.append(I.z(r.value))
+                except Exception:
+                    pass
+            for e_ in exprs:
+                if mentions_new_symbol(e_, names_before, I.ctx.names):
+                    gen = True
+        if gen and res and all(r.outcome != 'raise' and I.is_number(r.value) for r in res):
+            # the same value on every path, and that value free of generated symbols: the case split does not matter
+            try:
+                z0 = I.z(res[0].value)
+                if all(z3.eq(I.z(r.value), z0) for r in res[1:]) and not mentions_new_symbol(z0, names_before, I.ctx.names):
+                    gen = False
+                    res = [res[0]]
+                    res[0].pc_suffix = []
+            except Exception:
+                pass
+        if gen:
+            kinds_ = set(I.kind(r.value) for r in res if r.outcome != 'raise')
+            if any(r.outcome == 'raise' for r in res) or not kinds_ <= {'int', 'real', 'bool'}:
+                raise Unsupported('array from generated structured elements')
+            dt_ = dtype or ('float' if 'real' in kinds_ else ('int' if 'int' in kinds_ else 'bool'))
+            g = I.ctx.fresh_fn('elem', z3.IntSort(), {'float': z3.RealSort(), 'int': z3.IntSort(), 'uint': z3.IntSort(), 'bool': z3.BoolSort()}[dt_])
+            out = self.new([s.n if isinstance(s.n, int) else n], dt_, lambda i, g=g: g(i))
+            out.elem_fn = g
+            out.elem_src = I.snapshot(s)
+            self.ax('array built from generated elements: contents uninterpreted, defining equation instantiated on demand')
+            return out
         cases = []
         has_inf = False
         kinds = set()
@@ -249,6 +312,16 @@ class NumpyModel(object):
                 e = ve if e is None else z3.If(z3.substitute(c, (k, i)), ve, e)
             return e
         return self.new([s.n if isinstance(s.n, int) else n], dt, fn)
+
+    def link_element(self, arr, k0):
+        """defining equation of a generated-element array at index k0 (a ground term): arr[k0] == the element computed for k0"""
+        I = self.I
+        g = getattr(arr, 'elem_fn', None)
+        if g is None:
+            return
+        v = I.seq_get_sym(arr.elem_src, k0)
+        I.ctx.assume(g(k0) == I.z(v, {'float': 'real', 'int': 'int', 'uint': 'int', 'bool': 'bool'}[arr.dtype]))
+        return v
 
     def xarray_from_items(self, items, scalar=False):
         I = self.I
@@ -326,27 +399,37 @@ class NumpyModel(object):
                 off = ax - (nd - a.ndim)
                 dims.append(a.shape[off] if off >= 0 else None)
             cand = None
-            for d in dims:
+            cand_js = []
+            zero_js = set()
+            for j_, d in enumerate(dims):
                 if d is None or (isinstance(d, int) and d == 1):
                     continue
                 if cand is None:
                     cand = d
-                elif not zeq(cand, d):
+                    cand_js = [j_]
+                elif zeq(cand, d):
+                    cand_js.append(j_)
+                else:
                     if isinstance(cand, int) and isinstance(d, int):
                         raise_py('ValueError', 'operands could not be broadcast together')
-                    if not self.I.ctx.branch(self.dim_z(cand) == self.dim_z(d)):
-                        # symbolic dims: a size-1 dim would still broadcast; otherwise error
-                        one = z3.Or(self.dim_z(cand) == 1, self.dim_z(d) == 1)
-                        if self.I.ctx.branch(one):
-                            raise Unsupported('broadcast of a symbolic size-1 dimension')
+                    if self.I.ctx.branch(self.dim_z(cand) == self.dim_z(d)):
+                        cand_js.append(j_)
+                    elif self.I.ctx.branch(self.dim_z(cand) == 1):
+                        # the dimension seen so far has (symbolic) size 1: it is stretched
+                        zero_js.update(cand_js)
+                        cand = d
+                        cand_js = [j_]
+                    elif self.I.ctx.branch(self.dim_z(d) == 1):
+                        zero_js.add(j_)
+                    else:
                         raise_py('ValueError', 'operands could not be broadcast together')
             if cand is None:
                 cand = 1
             shape.append(cand)
-            for p, d in zip(plans, dims):
+            for j_, (p, d) in enumerate(zip(plans, dims)):
                 if d is None:
                     p.append(None)
-                elif isinstance(d, int) and d == 1 and not (isinstance(cand, int) and cand == 1):
+                elif j_ in zero_js or (isinstance(d, int) and d == 1 and not (isinstance(cand, int) and cand == 1)):
                     p.append('zero')
                 else:
                     p.append('id')
@@ -867,6 +950,8 @@ class NumpyModel(object):
         if not out_shape and all(p[0] == 'fix' for p in plan):
             if arr.dtype == 'xfloat':
                 raise Unsupported('scalar read from an extended-real array')
+            if getattr(arr, 'nanfn', None) is not None:
+                raise Unsupported('scalar read from an array that may hold NaN')
             return self.scalar(arr.fn(*to_base()), arr.dtype)
         out = self.new(out_shape, arr.dtype, None, cls=arr.cls if arr.cls == 'FCSData' else None,
                        finalize_from=arr if arr.cls == 'FCSData' else None)
@@ -895,6 +980,9 @@ class NumpyModel(object):
                 vidx = [z3.IntVal(0) if v is None else v for v in vidx]       # newaxis positions
                 return (z3.And(*conds) if conds else z3.BoolVal(True)), vidx
             out.from_base = from_base
+        if getattr(arr, 'nanfn', None) is not None:
+            nf = arr.nanfn
+            out.nanfn = lambda *ridx, nf=nf, to_base=to_base: nf(*to_base(*ridx))
         masks = [s for s in sels if s.mask is not None]
         if len(masks) == 1 and sels[0] is masks[0] and all(getattr(s, 'full', False) for s in sels[1:]):
             out.term = ('filter', arr, masks[0].mask, masks[0].mask_fn)
@@ -1153,6 +1241,7 @@ class NumpyModel(object):
         out.bits = a.bits
         if hasattr(a, 'float_bits'):
             out.float_bits = a.float_bits
+        out.nanfn = getattr(a, 'nanfn', None)
         return out
 
     def m_copy(self, a, order=None):
@@ -1172,6 +1261,10 @@ class NumpyModel(object):
         out = self.new(a.shape, dt, lambda *idx, f=f: self.cast(f(*idx), a.dtype, dt, bits),
                        cls=a.cls if a.cls == 'FCSData' else None, finalize_from=a if a.cls == 'FCSData' else None)
         out.bits = bits
+        if getattr(a, 'nanfn', None) is not None:
+            if dt != 'float':
+                raise Unsupported('conversion of an array that may hold NaN to a non-float dtype')
+            out.nanfn = a.nanfn
         return out
 
     def m_view(self, a, typ=None, **kw):
@@ -1729,6 +1822,8 @@ class NumpyModel(object):
         @reg('isnan')
         def _isnan(I_, a, k):
             x = a[0]
+            if isinstance(x, NDArr) and getattr(x, 'nanfn', None) is not None:
+                return self.new(x.shape, 'bool', x.nanfn)
             if isinstance(x, NDArr):
                 self.ax('A-REAL: no NaN in real-modelled arrays')
                 return self.new(x.shape, 'bool', lambda *idx: z3.BoolVal(False))
